@@ -40,6 +40,8 @@ def run_case(case):
             kind = c.pop("kind", "api")
             if kind == "kernel":
                 s.kernel_history(c["steps"])
+            elif kind == "rewrite":
+                s.rewrite_library(c["variant"])
             else:
                 if c.get("group"):
                     s.reseed()
@@ -64,7 +66,15 @@ def gen_cases(ctx, rnd, count, maxn, multipool=0):
             if multipool and path in ("inmem", "inmem_file"):
                 path = "file"
             nb = rnd.choice([0, 1, 2, 3, n, n + 1, n + 2])
-            if k < 0.35:
+            if k < 0.12 and not multipool:
+                # the user's library file is overwritten in place with the same samples in other units
+                calls.append(dict(kind="rewrite", variant=rnd.choice(["yr_deg", "h_rad", "d_deg", "d_rad"])))
+                calls.append(dict(api="marginal", path=rnd.choice(["file", "inmem_file", "object"]), nbatches=nb))
+            elif k < 0.22:
+                # shuffled evaluation order: the cache must hand every task its own rows in the order asked for
+                calls.append(dict(api=rnd.choice(["rejection", "rejection", "iterative"]), path=rnd.choice(["object", "file"]), randomize=True,
+                                  nbatches=nb, all=True, nreq=1, initb=rnd.randint(1, n), nlinear=1))
+            elif k < 0.35:
                 calls.append(dict(api="marginal", path=path, nbatches=nb))
             elif k < 0.55 and not multipool:
                 steps = []
